@@ -755,8 +755,21 @@ class Engine(object):
                 r2, m2 = self._check(z3.And(z3.Not(t), *tame))
                 if r2 == 'sat':
                     m = m2
+            # generic values: distinct inputs, so that permutations or mixed
+            # up fields are visible in the concrete replay
+            reals = [x for _, x in self.inputs if z3.is_real(x)]
+            generic = None
+            if len(reals) > 1:
+                generic = z3.And(z3.Not(t), z3.Distinct(*reals),
+                                 *[z3.And(x >= -40, x <= 40) for x in reals])
+                r2, m2 = self._check(generic)
+                if r2 == 'sat':
+                    m = m2
+                else:
+                    generic = None
             try:
-                m3 = realistic_model(self, z3.Not(t))
+                m3 = realistic_model(self, generic if generic is not None
+                                     else z3.Not(t))
             except z3.Z3Exception:
                 m3 = None
             if m3 is not None:
